@@ -234,7 +234,7 @@ func (c *fixedChunkReader) Read(p []byte) (int, error) {
 
 func runC06(r *core.Run) {
 	L := core.Pick(r, 5, 7)
-	r.Bound("all-schedules", fmt.Sprintf("every input over each format's token alphabet of length 0..%d plus the 12+ well-formed small corpus files in their LF and CRLF forms (up to 18 bytes) x EVERY partition of the stream into successive Read results x {EOF alone, EOF together with the last bytes}", L))
+	r.Bound("all-schedules", fmt.Sprintf("every input over each format's token alphabet of length 0..%d plus the 12+ well-formed small corpus files in their LF and CRLF forms (up to 18 bytes) plus 20 inputs per format that begin, or whose first field begins, with a magic number (byte order marks whole and cut, gzip, zstd, bzip2, NUL, shebang) x EVERY partition of the stream into successive Read results x {EOF alone, EOF together with the last bytes}", L))
 	r.Assume("the controlled reader never returns (0, nil); error texts are not compared, only positions")
 	core.Clause(r, "all-inputs-all-schedules", core.Opts{Rule: "engine E1: for each input every delivery schedule is executed against the real decoder and compared with the one-piece reference decode; evaluations counts executions; non-trivial = input of at least 2 bytes"},
 		func(emit func(c06Case) bool) {
@@ -256,11 +256,25 @@ func runC06(r *core.Run) {
 						}
 					}
 				}
+				// inputs that begin (or whose first field begins) with the magic numbers a reader might sniff:
+				// byte order marks, gzip, zstd, bzip2, NUL, shebang. Sniffing must not depend on how many
+				// bytes the first Read happens to return.
+				shortest := map[string][2]string{"fasta": {">", "a\nAC\n"}, "fastq": {"@", "a\nA\n+\nI\n"}, "sam": {"", "q\t0\tr\t1\t9\t*\t*\t0\t0\tA\tI\n"}, "samh": {"@", "CO\tx\n"}, "bed": {"", "c\t0\t1\n"}, "newick": {"(", "a,b);"}}[f.Name]
+				for _, magic := range []string{"\xef\xbb\xbf", "\xff\xfe", "\xfe\xff", "\x1f\x8b\x08", "\x28\xb5\x2f\xfd", "BZh", "\x00", "#!", "\xef\xbb", "\xef"} {
+					for _, v := range []string{magic + shortest[0] + shortest[1], shortest[0] + magic + shortest[1]} {
+						if len(v) > 12 {
+							v = v[:12]
+						}
+						if !emit(c06Case{Format: f.Name, Input: core.S(v), AllSizes: true, Bound: -1}) {
+							return
+						}
+					}
+				}
 			}
 		}, func(c c06Case) core.Outcome { return checkC06(r, c) })
 
 	bound := core.Pick(r, 2, 3)
-	r.Bound("long-files", fmt.Sprintf("every medium (40-200 byte) corpus file (LF form, and CRLF form with <= 2 deviations over all sizes) with <= %d deviations (short reads of every size / EOF with data, at any Read); the small SAM alignment files with <= 3; the ~9 KiB file and the long-line file (a line of 5000+ bytes, LF and CRLF) of every format with <= %d deviations over the size menu {1,2,3,half,max-1}", bound+1, bound))
+	r.Bound("long-files", fmt.Sprintf("every medium (40-200 byte) corpus file (LF form, and CRLF form with <= 2 deviations over all sizes) with <= %d deviations (short reads of every size / EOF with data, at any Read); the 15 placeholder-token files with <= 2; the small SAM alignment files with <= 3; the ~9 KiB file and the long-line file (a line of 5000+ bytes, LF and CRLF) of every format with <= %d deviations over the size menu {1,2,3,half,max-1}", bound+1, bound))
 	core.Clause(r, "long-files-bounded", core.Opts{Rule: "deviation-bounded exploration (iterated: 0, 1, .. bound deviations) of the Read schedule of longer well-formed files; non-trivial = all"},
 		func(emit func(c06Case) bool) {
 			for _, f := range formats {
@@ -280,6 +294,9 @@ func runC06(r *core.Run) {
 				for i := range corpus(f.Name, "medium") {
 					emit(c06Case{Format: f.Name, Corpus: fmt.Sprint("medium/", i), AllSizes: true, Bound: min(bound, 2)})
 					emit(c06Case{Format: f.Name, Corpus: fmt.Sprint("medium/", i), AllSizes: false, Bound: bound + 1})
+				}
+				for i := range corpus(f.Name, "vocab") {
+					emit(c06Case{Format: f.Name, Corpus: fmt.Sprint("vocab/", i), AllSizes: false, Bound: 2})
 				}
 				emit(c06Case{Format: f.Name, Corpus: "large/0", AllSizes: false, Bound: bound})
 				emit(c06Case{Format: f.Name, Corpus: "longline/0", AllSizes: false, Bound: bound})
